@@ -11,7 +11,40 @@ of the index structure alone: the Lean model predicts it (K) and the oracle belo
 its own reading of the loops (O: p MUST be found when l is covered; outside coverage nothing is
 required; whatever is returned must multiply back to n with parts > 1).
 """
-import math, os, re, json
+# SIZE AUDIT (quick tier), measured on cases('quick', Random(1)) + corpus/C16 before the boundary family was added: bit length of n per op
+#   op                      quick max     thorough max  code supports                      boundary classes reached in quick (before the audit)
+#   s2_pm1 / s2_pp1         160 (corpus   170 / 162     ZmodN: odd n < 2^512, factor()     127,128,129 by chance (3..22 cases); nothing at 63..65 (one word),
+#                           pm1: 351)                   refuses > 500; polynomial stage 2  255..257, 320, 384, 447..449, 499, 500: MISSING in both tiers
+#                                                       (convolve_modn_ntt) <= 500 bits
+#   s2_pm1x                 259           265           same                               none deterministically
+#   s2_pm1_only/_quick      161 / 281     202 / 312     bands to 471.. bits; quick caps    interior sizes of the bands with B1 <= 2^20, B2 <= 1.3e9 only (larger
+#                                                       bits_max = 310                     bands cost seconds..minutes per run); band edges are parameter choices
+#                                                                                          read from the source by model and oracle alike (tables: C20)
+#   s2_ecm                  77            78            ZmodN as above; roots_eval arm     63,64,65 (3 each + corpus 30..41); 127.. 500: MISSING in both tiers
+#                                                       for d1 >= 4000
+#   s2_ecm128               67 (corpus    70            u128: odd n < 2^128, two-word      63,64 (corpus 11..15 each), 65..71; 126,127,128: MISSING in both tiers
+#                           71)                         Montgomery form above 2^64
+#   s2_rho64                64            64            u64                                31..33, 63, 64 (45 cases at 64 bits): reached
+#   s2_rho_impl             125           125           ZmodN (<= 512)                     64 (4 cases); 127.. 500: MISSING
+#   s2_gcdf/s2_cgf/s2_cgf1  365/327/251   416/364/339   Uint n, raw 512-bit words          31..33, 63..65, 127..129 by chance (1..4 cases); 255..257, 448, 500: MISSING
+#                           values 428                                                     (pseudoprime / big_gcd never saw a part above ~360 bits)
+#   s2_expmodn/cheb/_large  500           500           ZmodN; e: u64 / U1024              moduli 61,64,127,151,216,500 bits; exponents 31..33,63,64 / 63..65,127..129,
+#                                                                                          1019..1024 bits: reached (ring sizes in between are C07's)
+#   s2_pm1base              61            61            u64 argument, SOUND BELOW 2^63     62,63: MISSING (now 6 cases at 63 bits); see the note below
+#   s2_sel / s2_walk        B2 to 2^53    same          f64 labels < 2^53                  B2 around 2^32: 14..24 cases each; every row, midpoint +-1: reached
+#   B1 / B2 of full runs    B1 <= 2^20,   B1 <= 7e6,    B1 < 2^32 (u32 primes), B2 f64;    no type boundary in reach: the u32 casts (`p > b2 as u32`) sit on the
+#                           B2 <= 1.2e9   B2 <= 1.8e10  d2^2*d1 > 2^64 above 1e13          prime walk (B2 <= 8e4); d2^2*d1 overflow needs B2 > 1e13 (hours)
+# Added: boundary_cases (first in both tiers): P-1 (prime walk, polynomial stage 2), P+1, ECM (both arms), rho_impl at n of exactly
+# 63,64,65 (P-1/P+1), 127,128,129,255,256,257,320,384,447,448,449,499,500 bits; ecm128 at 65,96,126,127,128 bits; gcd_factors /
+# check_gcd_factor(s) at 255,256,257,448,500 bits; PM1Base at 63 bits. Not added: n of 501..512 bits (outside factor()'s range; a
+# 512-bit n makes ecm_curve panic in `invalid point` because ZmodN::add is wrong for 512-bit moduli = C07 add_512bit_counterexample).
+# NOTE (found by the audit, not listed, the cases are NOT in the family because they fail on the unchanged tree):
+#   PM1Base::factor(n: u64, ..) computes `xr + minus_one_r` (and `h + minus_one_r`) in u64; both terms are < n, so for n > 2^65/3 the
+#   sum can exceed 2^64: release wraps (the gcd is taken with a wrong value: the factor is missed), the checked profile panics.
+#   `s2_pm1base 15797939067124976089 4000 33923 2423 264`: release `none` (33923 - 1 = 2*7*2423, large prime number 264 < budget -
+#   1000: must be found), chk panic at pollard_pm1.rs:144 `attempt to add with overflow`. Callers in /repo (benches, tests) stay
+#   below 2^56; the signature admits every odd u64.
+import math, os, re, json, random
 from vlib.pipeline import Case
 from vlib import gen
 
@@ -35,7 +68,10 @@ HYPOTHESES = [
     "abstract additive group with an even coordinate function); C10: roots_eval / convolve_modn_ntt compute the products and the "
     "cyclic convolution they document",
 ]
-RULE = ("constructed n = p*q (p: prescribed order structure s*l, s | stage-1 exponent incl. maximal prime powers; q strong), "
+RULE = ("first, in BOTH tiers, a deterministic boundary family: P-1 (prime walk and polynomial stage 2), P+1, ECM (both stage-2 arms), rho_impl at "
+        "n of exactly 63..65 (P-1/P+1), 127..129, 255..257, 320, 384, 447..449, 499, 500 bits, ecm128 at 65, 96, 126..128 bits, gcd_factors / "
+        "check_gcd_factor(s) at 255..257, 448, 500 bits, PM1Base at 63 bits (cofactor chosen so that n has exactly that length); then: "
+        "constructed n = p*q (p: prescribed order structure s*l, s | stage-1 exponent incl. maximal prime powers; q strong), "
         "for every table row reachable in the tier and every hard-wired (B1,B2) within reach: l at the first covered prime, at the "
         "last covered value, at grid edges a*d1 +- b, just outside coverage, random; every table row as an s2_row request; "
         "exponent/Lucas ladders on boundary exponent patterns; gcd_factors on increasing gcd chains; rho64 on 64-bit composites; "
@@ -1148,10 +1184,150 @@ def sel_cases(rng, N):
         yield Case(f"s2_walk {b2}", tag="walk")
 
 
+# ---------------------------------------------------------------- boundary size classes (size audit)
+
+
+def _fork(rng, label):
+    """own stream for the boundary family: depends on the run's seed, leaves the stream of the older families untouched"""
+    return random.Random(f"{label}:{rng.getstate()[1][:4]}")
+
+
+def exact_q(rng, p, bits, sign, floor=0, ok=None):
+    """prime q with p*q of EXACTLY `bits` bits; sign = +1 / -1: q - sign = k*Q with Q a prime above `floor` (the group order
+    attached to q is out of reach of every bound used), `ok(q, Q)` = final filter; sign = 0: any prime = 1 mod 4"""
+    lo, hi = -(-(1 << (bits - 1)) // p), ((1 << bits) - 1) // p
+    if sign == 0:
+        for _ in range(20000):
+            q = (rng.randrange(lo, hi + 1) | 3) - 2
+            if lo <= q <= hi and q != p and is_prime(q):
+                return q
+        return None
+    Qb = max(floor.bit_length() + 1, min(62, hi.bit_length() - 9))
+    for _ in range(100):
+        Q = next_prime(rng.getrandbits(Qb) | (1 << (Qb - 1)))
+        if hi // Q - lo // Q < 16:
+            return None
+        for _ in range(800):
+            q = (rng.randrange(lo // Q + 1, hi // Q) & ~1) * Q + sign
+            if lo <= q <= hi and q != p and is_prime(q) and (ok is None or ok(q, Q)):
+                return q
+    return None
+
+
+# bit lengths of n straddling the word boundaries of ZmodN (k = 1, 2, 4, 5, 6, 7, 8 words) and the end of the supported range:
+# factor() refuses above 500 bits (ZmodN::new admits 512, but ZmodN::add is wrong for 512-bit moduli: C07 add_512bit_counterexample;
+# ecm_curve on a 512-bit n ends in the `invalid point` assert for that reason)
+S2_BOUNDARY_BITS = [63, 64, 65, 127, 128, 129, 255, 256, 257, 320, 384, 447, 448, 449, 499, 500]
+
+
+def chain_values(rng, n, ps, length):
+    """raw words v_0..v_{length-1} < 2^512 with gcd(n, v_j) = product of the p in ps caught at a step <= j (increasing chain)"""
+    steps = sorted(rng.randrange(0, length) for _ in ps)
+    vals = []
+    for j in range(length):
+        g = 1
+        for p, st in zip(ps, steps):
+            if st <= j:
+                g *= p
+        junk = rng.getrandbits(rng.choice([1, 11])) | 1
+        while math.gcd(junk, n) != 1:
+            junk += 2
+        vals.append(g * junk)
+    return vals
+
+
+def boundary_cases(rng, tier):
+    """the routines that take a multiprecision n, in BOTH tiers, at every boundary size of n (constructed orders as in the older
+    families, the cofactor chosen so that n has exactly the wanted bit length); ecm128 up to its u128 limit; PM1Base just
+    below its 2^63 limit"""
+    reps = 1 if tier == "quick" else 3
+    for rep in range(reps):
+        # ---- P-1 (polynomial evaluation above MULTIEVAL_THRESHOLD, prime walk below) and P+1 (always roots_eval)
+        for bits in S2_BOUNDARY_BITS:
+            plans = [("pm1", 600, 100000), ("pm1", 600, 40000), ("pp1", 600, 20000)]
+            if bits in (256, 257, 448, 500):
+                plans += [("pm1", 1000, 1900000), ("pp1", 1500, 126000)]
+            for consumer, b1, b2 in plans:
+                poly = consumer == "pp1" or b2 > THRESHOLD
+                lab, d1, d2 = nearest(consumer, b2)
+                eff = row_eff(consumer, (lab, d1, d2)) if poly else b2
+                floor = max(b1, 2 * b2, (d2 + 2) * d1)
+                for l in (prev_prime(eff + 1), prev_prime(rng.randrange(b1 + 2, eff))):
+                    for _ in range(40):
+                        if consumer == "pm1":
+                            p, seed = make_pm1_prime(rng, b1, l), None
+                        else:
+                            p, seed = make_pp1_prime(rng, b1, l) or (None, None)
+                        if not p or p.bit_length() > bits - 28:
+                            continue
+                        if consumer == "pm1":
+                            q = exact_q(rng, p, bits, 1, floor, lambda q, Q: pow(2, (q - 1) // Q, q) != 1)
+                        else:
+                            q = exact_q(rng, p, bits, -1, floor, lambda q, Q: jacobi(seed * seed - 4, q) == -1
+                                        and lucas_v(seed, (q + 1) // Q, q) != 2)
+                        if q:
+                            break
+                    else:
+                        continue
+                    assert (p * q).bit_length() == bits
+                    if consumer == "pm1":
+                        yield Case(f"s2_pm1 {p * q} {b1} {b2} {p} {l}", tag=f"edge{bits}")
+                    else:
+                        yield Case(f"s2_pp1 {p * q} {seed} {b1} {b2} {p} {l}", tag=f"edge{bits}")
+        # ---- ECM: the constructed (p, point, l) of ecm_search with a prime cofactor that brings n to the boundary size (a
+        # prime of 80+ bits: the point's order modulo it is out of reach of these bounds, smooth with probability < 1e-9)
+        base = {"s2_ecm": [], "s2_ecm128": []}
+        for c in ecm_search(rng, 1200, per_class=3):
+            if c.tag != "ecm/out":
+                base[c.op].append(c)
+
+        def resized(c, bits):
+            p = int(c.args[5])
+            return Case(f"{c.op} {p * exact_q(rng, p, bits, 0)} {' '.join(c.args[1:])}", tag=f"edge{bits}")
+        small = [c for c in base["s2_ecm"] if int(c.args[4]) < 2000000]      # d1 < 4000: plain products
+        big = [c for c in base["s2_ecm"] if int(c.args[4]) >= 2000000]       # roots_eval arm
+        for bits in S2_BOUNDARY_BITS[3:]:
+            for c in rng.sample(small, 2) + rng.sample(big, 2):
+                yield resized(c, bits)
+        for bits in (65, 96, 126, 127, 128):                                  # ecm128: n is a u128
+            for c in rng.sample(base["s2_ecm128"], 4 if bits >= 127 else 1):
+                yield resized(c, bits)
+        # ---- rho_impl (multiprecision ring), gcd_factors / check_gcd_factors (big_gcd, pseudoprime of a large part)
+        pool = [1009, 65537, 1000003, 2 ** 31 - 1, 1000000007, 2 ** 61 - 1, 2 ** 89 - 1, 2 ** 107 - 1]
+        for bits in S2_BOUNDARY_BITS[3:]:
+            n0 = rng.choice([1009, 65537]) * rng.choice([1000033, 15485863, 2147483647])
+            yield Case(f"s2_rho_impl {n0 * exact_q(rng, n0, bits, 0)} {rng.randrange(1, 50)} {rng.choice([500, 2000])}", tag=f"edge{bits}")
+        for bits in (255, 256, 257, 448, 500):
+            ps = rng.sample(pool, 3)
+            ps.append(exact_q(rng, ps[0] * ps[1] * ps[2], bits, 0))
+            n = ps[0] * ps[1] * ps[2] * ps[3]
+            yield Case(f"s2_gcdf {n} {','.join(map(str, chain_values(rng, n, ps, rng.choice([3, 5, 9]))))}", tag=f"edge{bits}")
+            rng.shuffle(ps)
+            nred = ps[1] * ps[2] * ps[3]
+            vals = ",".join(map(str, chain_values(rng, nred, ps[1:], rng.choice([2, 4, 8]))))
+            yield Case(f"s2_cgf {n} {ps[0]} {nred} {vals}", tag=f"edge{bits}")
+            yield Case(f"s2_cgf1 {nred} {vals}", tag=f"edge{bits}")
+        # ---- PM1Base::factor takes a u64 but computes xr + (n - R mod n) in u64: sound below 2^63 only (above 2^65/3 the sum
+        # can wrap: see the SIZE AUDIT note); the last supported size
+        larges_index(503)
+        made = 0
+        while made < 6:
+            l = next_prime(rng.randrange(500, 5000))
+            p = 2 * rng.choice([1, 3, 5, 7, 9, 15]) * l + 1
+            if not is_prime(p) or pow(2, (p - 1) // l, p) == 1:
+                continue
+            lo, hi = -(-(1 << 62) // p), ((1 << 63) - 1) // p
+            qq = 2 * next_prime(rng.randrange(lo // 2, hi // 2)) + 1
+            if is_prime(qq) and lo <= qq <= hi:
+                made += 1
+                yield Case(f"s2_pm1base {p * qq} {rng.choice([1024, 1600, 4000, 7000, 7000])} {p} {l} {larges_index(l)}", tag="edge63")
+
+
 def cases(tier, rng, extended=False):
     scale = 1 if tier == "quick" else 20
     if extended:
         scale *= 5
+    yield from boundary_cases(_fork(rng, "C16-boundary"), tier)
     yield from table_cases()
     yield from sel_cases(rng, 60 * scale)
     yield from constructed_cases(tier, rng, extended)
